@@ -1,9 +1,386 @@
--- line-protocol handler of property C17 (stub: nothing modelled yet)
+-- line-protocol handler of property C17 (constraint composition polynomial); op lines mirror
+-- harness/src/bin/c17.rs.  Modelled: `def` ops with explicit data over the base fields without a
+-- Lagrange kernel column (definition, prover pipeline, verifier expression); everything else is `-`.
+import Std.Data.HashMap
 import Winter.Drv.Util
+import Winter.Model.Field
+import Winter.Model.Divisor
+import Winter.Model.Composition
 
 namespace Drv.C17
+open Model Model.Divisor Model.Composition
 
-def handle (_toks : List String) : String := "-"
+def field? : String → Option FieldImpl
+  | "f64" => some F64.impl
+  | "f62" => some F62.impl
+  | "f128" => some F128.impl
+  | _ => none
+
+/-- square-and-multiply over the field's own multiplication (exponents below 2^130); the same field
+    value as the code's `exp` / repeated multiplication (outputs are canonical integers) -/
+def powLoop (mul : Nat → Nat → Nat) : Nat → Nat → Nat → Nat → Nat
+  | 0, r, _, _ => r
+  | fuel + 1, r, b, e =>
+    if e = 0 then r else powLoop mul fuel (if e % 2 = 1 then mul r b else r) (mul b b) (e / 2)
+
+/-- powers of the root of unity `W` of order `N` (the LDE domain size) and the discrete logarithms
+    of its powers, keyed by canonical value: every root of unity the instance uses is a power of `W`,
+    and the inverse DFTs of the model raise them to O(N²) exponents -/
+structure PowTable where
+  N : Nat
+  pows : Array Nat
+  logs : Std.HashMap Nat Nat
+
+def mkPowTable (F : FieldImpl) (N : Nat) : PowTable :=
+  match F.rootOfUnity (Nat.log2 N) with
+  | none => ⟨0, #[], {}⟩
+  | some W =>
+    let st := (List.range N).foldl (fun (st : Nat × Array Nat × Std.HashMap Nat Nat) i =>
+      (F.mul st.1 W, st.2.1.push st.1, st.2.2.insert (F.asInt st.1) i)) (F.new 1, #[], {})
+    ⟨N, st.2.1, st.2.2⟩
+
+/-- `x^e`: by table when `x` is a power of `W`, else square-and-multiply (the same field value) -/
+def tpow (F : FieldImpl) (T : PowTable) (x e : Nat) : Nat :=
+  match T.logs.get? (F.asInt x) with
+  | some j => T.pows.getD ((j * e) % T.N) (F.new 1)
+  | none => powLoop F.mul 130 (F.new 1) x e
+
+/-- the code's field operations on raw words -/
+def ops (F : FieldImpl) (T : PowTable) : Ops Nat where
+  zero := F.new 0
+  one := F.new 1
+  add := F.add
+  sub := F.sub
+  mul := F.mul
+  pow := tpow F T
+  div := fun a b => match F.div a b with
+    | .done r => some r
+    | .out => none
+  ofNat := fun v => F.new (v % F.M)
+  root := F.rootOfUnity
+
+-- ------------------------------------------------------------------------------------ parsing
+def digits? (cs : List Char) : Option Nat :=
+  if cs.isEmpty then none
+  else cs.foldl (fun acc c => match acc with
+    | none => none
+    | some v => if '0' ≤ c ∧ c ≤ '9' then some (v * 10 + (c.toNat - 48)) else none) (some 0)
+
+def nat? (s : String) : Option Nat := digits? s.toList
+
+/-- leading decimal number of a character list -/
+def takeNum (cs : List Char) : Option (Nat × List Char) :=
+  let ds := cs.takeWhile (fun c => '0' ≤ c ∧ c ≤ '9')
+  match digits? ds with
+  | some v => some (v, cs.drop ds.length)
+  | none => none
+
+/-- prefix-notation expression (genair `Expr::parse`); `/` (generation rules only) is rejected -/
+def parseExpr : Nat → List Char → Option (Expr × List Char)
+  | 0, _ => none
+  | _ + 1, [] => none
+  | fuel + 1, c :: rest =>
+    let atom (mk : Nat → Expr) : Option (Expr × List Char) :=
+      match takeNum rest with
+      | some (v, r) => some (mk v, r)
+      | none => none
+    let bin (mk : Expr → Expr → Expr) : Option (Expr × List Char) :=
+      match parseExpr fuel rest with
+      | some (a, r1) =>
+        match parseExpr fuel r1 with
+        | some (b, r2) => some (mk a b, r2)
+        | none => none
+      | none => none
+    if c = 'k' then atom .const
+    else if c = 'c' then atom .cur
+    else if c = 'n' then atom .nxt
+    else if c = 'p' then atom .per
+    else if c = 'a' then atom .acur
+    else if c = 'b' then atom .anxt
+    else if c = 'r' then atom .rand
+    else if c = 'v' then atom .pub
+    else if c = 'w' then atom .pubSeq
+    else if c = '+' then bin .add
+    else if c = '-' then bin .sub
+    else if c = '*' then bin .mul
+    else if c = '^' then
+      match takeNum rest with
+      | some (k, r) =>
+        match parseExpr fuel r with
+        | some (a, r2) => some (.pow a k, r2)
+        | none => none
+      | none => none
+    else if c = '~' then
+      match parseExpr fuel rest with
+      | some (a, r) => some (.neg a, r)
+      | none => none
+    else none
+
+def expr? (s : String) : Option Expr :=
+  let cs := s.toList
+  match parseExpr (cs.length + 1) cs with
+  | some (e, []) => some e
+  | _ => none
+
+/-- `<base>[.<cycle>]*:<expr>` -/
+def constraint? (s : String) : Option (Degree × Expr) :=
+  match s.splitOn ":" with
+  | [d, e] =>
+    match (d.splitOn ".").mapM nat?, expr? e with
+    | some (b :: cs), some e => some (⟨b, cs⟩, e)
+    | _, _ => none
+  | _ => none
+
+def listOf {β : Type} (f : String → Option β) (s : String) (sep : String) : Option (List β) :=
+  if s.isEmpty then some [] else (s.splitOn sep).mapM f
+
+/-- assertion shape: kind, column, first step, stride -/
+structure AShape where
+  kind : Char
+  column : Nat
+  first : Nat
+  stride : Nat
+
+def ashape? (s : String) : Option AShape :=
+  match s.toList with
+  | k :: rest =>
+    match ((String.ofList rest).splitOn ".").mapM nat? with
+    | some [c, st] => if k = 's' then some ⟨k, c, st, 0⟩ else none
+    | some [c, f, st] => if k = 'p' ∨ k = 'q' then some ⟨k, c, f, st⟩ else none
+    | _ => none
+  | [] => none
+
+def auxAssert? (s : String) : Option (AShape × Expr) :=
+  match s.splitOn "=" with
+  | [a, e] =>
+    match ashape? a, expr? e with
+    | some a, some e => some (a, e)
+    | _, _ => none
+  | _ => none
+
+structure Desc where
+  width : Nat := 0
+  n : Nat := 0
+  e : Nat := 1
+  periodic : List (List Nat) := []
+  cons : List (Degree × Expr) := []
+  asserts : List AShape := []
+  hasAux : Bool := false
+  auxWidth : Nat := 0
+  numRands : Nat := 0
+  lagrange : Bool := false
+  auxCons : List (Degree × Expr) := []
+  auxAsserts : List (AShape × Expr) := []
+
+def descField (d : Desc) (k v : String) : Option Desc :=
+  if k = "w" then (nat? v).map (fun x => { d with width := x })
+  else if k = "l" then (nat? v).map (fun x => { d with n := x })
+  else if k = "e" then (nat? v).map (fun x => { d with e := x })
+  else if k = "j" ∨ k = "g" ∨ k = "h" then some d
+  else if k = "p" then (listOf (fun c => listOf nat? c ".") v "|").map (fun x => { d with periodic := x })
+  else if k = "t" then (listOf constraint? v ",").map (fun x => { d with cons := x })
+  else if k = "a" then (listOf ashape? v ",").map (fun x => { d with asserts := x })
+  else if k = "x" then
+    match (v.splitOn ".").mapM nat? with
+    | some [w, r, l] => some { d with hasAux := true, auxWidth := w, numRands := r, lagrange := l != 0 }
+    | _ => none
+  else if k = "u" then (listOf constraint? v ",").map (fun x => { d with auxCons := x })
+  else if k = "b" then (listOf auxAssert? v ",").map (fun x => { d with auxAsserts := x })
+  else none
+
+def desc? (s : String) : Option Desc :=
+  (s.splitOn ";").foldl (fun acc field =>
+    match acc with
+    | none => none
+    | some d =>
+      if field.isEmpty then some d
+      else match field.splitOn "=" with
+        | k :: v :: more => descField d k ("=".intercalate (v :: more))
+        | _ => none) (some {})
+
+/-- index ranges of all atoms (descriptions are validated before anything is evaluated) -/
+def exprOk (w np aw nr npub : Nat) (main value : Bool) : Expr → Bool
+  | .const _ => true
+  | .cur i | .nxt i => !value && i < w
+  | .per i => !value && i < np
+  | .acur i | .anxt i => !main && !value && i < aw
+  | .rand i => !main && i < nr
+  | .pub i | .pubSeq i => value && i < npub
+  | .add a b | .sub a b | .mul a b => exprOk w np aw nr npub main value a && exprOk w np aw nr npub main value b
+  | .pow a k => k ≤ 64 && exprOk w np aw nr npub main value a
+  | .neg a => exprOk w np aw nr npub main value a
+
+def shapeOk (n width : Nat) (a : AShape) : Bool :=
+  a.column < width &&
+  (if a.kind = 's' then a.first < n
+   else a.stride ≥ 2 && isPow2 a.stride && a.stride ≤ n && a.first < a.stride)
+
+def numValues (n : Nat) (a : AShape) : Nat := if a.kind = 'q' then n / a.stride else 1
+
+def Desc.numPubs (d : Desc) : Nat := (d.asserts.map (numValues d.n)).sum
+
+def Desc.ok (d : Desc) : Bool :=
+  let np := d.periodic.length
+  let regular := d.auxWidth - (if d.lagrange then 1 else 0)
+  d.width ≥ 1 && d.width + d.auxWidth ≤ 255 && d.n ≥ 8 && isPow2 d.n && d.n ≤ 4096 &&
+  d.periodic.all (fun p => p.length ≥ 2 && isPow2 p.length && p.length ≤ d.n) &&
+  !d.cons.isEmpty && !d.asserts.isEmpty &&
+  d.cons.all (fun c => c.1.base ≥ 1 && c.1.cycles.all (fun cy => cy ≥ 2 && isPow2 cy) &&
+    exprOk d.width np 0 0 0 true false c.2) &&
+  d.asserts.all (shapeOk d.n d.width) &&
+  (!d.hasAux ||
+    (d.auxWidth ≥ 1 && !d.auxCons.isEmpty && !d.auxAsserts.isEmpty &&
+     d.auxCons.all (fun c => c.1.base ≥ 1 && c.1.cycles.all (fun cy => cy ≥ 2 && isPow2 cy) &&
+       exprOk d.width np d.auxWidth d.numRands 0 false false c.2) &&
+     d.auxAsserts.all (fun a => shapeOk d.n regular a.1 &&
+       exprOk 0 0 0 d.numRands d.numPubs false true a.2)))
+
+-- ------------------------------------------------------------------------------------ data token
+structure Data where
+  main : List (List Nat)
+  aux : List (List Nat)
+  rands : List Nat
+  lagr : List Nat
+  coeffs : List Nat
+  points : List Nat
+
+def section? (tag : Char) (s : String) : Option String :=
+  match s.toList with
+  | c :: rest => if c = tag then some (String.ofList rest) else none
+  | [] => none
+
+def data? (s : String) : Option Data :=
+  match s.toList with
+  | 'x' :: rest =>
+    match (String.ofList rest).splitOn "/" with
+    | [t, a, r, l, c, p] =>
+      match section? 'T' t, section? 'A' a, section? 'R' r, section? 'L' l, section? 'C' c, section? 'P' p with
+      | some t, some a, some r, some l, some c, some p =>
+        match listOf (fun col => listOf nat? col ",") t "|", listOf (fun col => listOf nat? col ",") a "|",
+              listOf nat? r ",", listOf nat? l ",", listOf nat? c ",", listOf nat? p "," with
+        | some t, some a, some r, some l, some c, some p => some ⟨t, a, r, l, c, p⟩
+        | _, _, _, _, _, _ => none
+      | _, _, _, _, _, _ => none
+    | _ => none
+  | _ => none
+
+-- ------------------------------------------------------------------------------------ the instance
+def fnOf (O : Ops Nat) (l : List Nat) : Nat → Nat := fun i => l.getD i O.zero
+def colFn (cols : List (List Nat)) : Nat → List Nat := fun j => cols.getD j []
+
+def buildAssertion (a : AShape) (values : List Nat) : Option (Assertion Nat) :=
+  if a.kind = 's' then some (single a.column a.first (values.headD 0))
+  else if a.kind = 'p' then resOpt (periodic a.column a.first a.stride (values.headD 0))
+  else resOpt (sequence a.column a.first a.stride values)
+
+/-- the steps an assertion covers -/
+def stepsOf (n : Nat) (a : AShape) : List Nat :=
+  if a.kind = 's' then [a.first] else (List.range (n / a.stride)).map (fun k => a.first + k * a.stride)
+
+/-- the asserted values of the main segment read off the trace, in assertion order -/
+def pubsOf (d : Desc) (main : List (List Nat)) : List Nat :=
+  d.asserts.flatMap (fun a =>
+    let col := main.getD a.column []
+    if a.kind = 'q' then (stepsOf d.n a).map (fun s => col.getD s 0) else [col.getD a.first 0])
+
+/-- the main assertions with their values -/
+def mainAssertions (d : Desc) (pubs : List Nat) : Option (List (Assertion Nat)) :=
+  (d.asserts.foldl (fun (st : Option (List (Assertion Nat)) × Nat) a =>
+    let k := numValues d.n a
+    match st.1, buildAssertion a ((pubs.drop st.2).take k) with
+    | some l, some x => (some (l ++ [x]), st.2 + k)
+    | _, _ => (none, st.2 + k)) (some [], 0)).1
+
+def valueEnv (O : Ops Nat) (rands pubs : List Nat) (seq : Nat) : Env Nat :=
+  ⟨fun _ => O.zero, fun _ => O.zero, fun _ => O.zero, fun _ => O.zero, fun _ => O.zero,
+   fnOf O rands, fnOf O pubs, seq⟩
+
+def auxAssertions (O : Ops Nat) (d : Desc) (rands pubs : List Nat) : Option (List (Assertion Nat)) :=
+  d.auxAsserts.mapM (fun p =>
+    let k := numValues d.n p.1
+    buildAssertion p.1 ((List.range k).map (fun j => p.2.eval O (valueEnv O rands pubs j))))
+
+/-- reference validity: every constraint on the steps `0 .. n-e-1`, every auxiliary assertion -/
+def valid (F : FieldImpl) (O : Ops Nat) (d : Desc) (dt : Data) (rands pubs : List Nat) : Bool :=
+  let isZero (v : Nat) : Bool := F.asInt v == 0
+  let cell (cols : List (List Nat)) (s : Nat) : Nat → Nat := fun j => (cols.getD j []).getD s O.zero
+  (List.range (d.n - d.e)).all (fun s =>
+    let per : Nat → Nat := fun i => let p := d.periodic.getD i []; O.ofNat (p.getD (s % p.length) 0)
+    let env : Env Nat := ⟨cell dt.main s, cell dt.main (s + 1), per, cell dt.aux s, cell dt.aux (s + 1),
+      fnOf O rands, fun _ => O.zero, 0⟩
+    d.cons.all (fun c => isZero (c.2.eval O env)) && d.auxCons.all (fun c => isZero (c.2.eval O env))) &&
+  d.auxAsserts.all (fun p =>
+    (stepsOf d.n p.1).zipIdx.all (fun sj =>
+      let j := if p.1.kind = 'q' then sj.2 else 0
+      F.asInt ((dt.aux.getD p.1.column []).getD sj.1 O.zero) == F.asInt (p.2.eval O (valueEnv O rands pubs j))))
+
+def fmtList (F : FieldImpl) (l : List Nat) : String := ",".intercalate (l.map (fun v => toString (F.asInt v)))
+
+def optStr (F : FieldImpl) : Option Nat → String
+  | some v => toString (F.asInt v)
+  | none => "none"
+
+def runDef (F : FieldImpl) (ldeBlowup : Nat) (d : Desc) (dt : Data) : String :=
+  let O := ops F (mkPowTable F (if d.n ≤ 4096 ∧ ldeBlowup ≤ 128 then d.n * ldeBlowup else 1))
+  let n := d.n
+  let (nt, nb) := (d.cons.length + d.auxCons.length, d.asserts.length + d.auxAsserts.length)
+  if !d.ok || dt.main.length != d.width || dt.main.any (fun c => c.length != n)
+      || dt.aux.length != d.auxWidth || dt.aux.any (fun c => c.length != n)
+      || dt.rands.length != d.numRands || !dt.lagr.isEmpty || dt.coeffs.length != nt + nb
+      || (dt.main ++ dt.aux ++ [dt.rands, dt.coeffs, dt.points]).any (fun c => c.any (fun v => v ≥ F.M)) then "bad-op"
+  else
+    let degs := d.cons.map (·.1) ++ d.auxCons.map (·.1)
+    let ceB := ceBlowup degs
+    if !(isPow2 ldeBlowup && 2 ≤ ldeBlowup && ldeBlowup ≤ 128 && ceB ≤ ldeBlowup) then "bad-op"
+    else match setNumTransitionExemptions n degs d.e with
+    | .panic _ => "bad-op"
+    | .ok _ =>
+      let raw (l : List Nat) : List Nat := l.map F.new
+      let dt : Data := ⟨dt.main.map raw, dt.aux.map raw, raw dt.rands, [], raw dt.coeffs, raw dt.points⟩
+      let pubs := pubsOf d dt.main
+      let rands := fnOf O dt.rands
+      match mainAssertions d pubs, auxAssertions O d dt.rands pubs with
+      | some ma, some aa =>
+        if !valid F O d dt dt.rands pubs then "invalid"
+        else
+          let air : Air Nat := ⟨n, d.e, d.width, d.auxWidth, d.periodic.map (fun p => p.map O.ofNat),
+            d.cons.map (·.2), d.auxCons.map (·.2), d.cons.map (·.1), d.auxCons.map (·.1), ma, aa⟩
+          let (tco, bco, _) := drawCoefficients dt.coeffs nt nb
+          let k := numCompositionColumns degs n d.e
+          match prep O air, dt.main.mapM (interpolate O), dt.aux.mapM (interpolate O),
+                mkDomain O n ceB ldeBlowup (F.new F.generator) with
+          | some P, some mp, some ap, some D =>
+            let mainPolys := colFn mp
+            let auxPolys := colFn ap
+            let cols :=
+              match compositionTrace O F.eq air P D smallPolyDegree mainPolys auxPolys rands tco bco with
+              | some tr => compositionPoly O D tr k
+              | none => none
+            let pts := dt.points.map (fun x =>
+              if F.asInt (O.pow x n) == 1 then "dom"
+              else
+                let h := match cols with
+                  | some cols => fmtList F (evaluateAt O cols x)
+                  | none => "none"
+                let c := defAt O air P mainPolys auxPolys rands tco bco x
+                let v := evaluateConstraints O air P (framesOf O mainPolys auxPolys P.g x) rands tco bco x
+                s!"{h};{optStr F c};{optStr F v}")
+            s!"k={k}" ++ String.join (pts.map (fun p => " " ++ p))
+          | _, _, _, _ => "none"
+      | _, _ => "bad-op"
+
+def handle : List String → String
+  | ["def", f, ext, blowup, data, desc] =>
+    match field? f, nat? ext, nat? blowup with
+    | some F, some 1, some b =>
+      match data.toList with
+      | 'x' :: _ =>
+        match desc? desc, data? data with
+        | some d, some dt => if d.lagrange then "-" else runDef F b d dt
+        | _, _ => "bad-op"
+      | _ => "-"
+    | _, _, _ => "-"
+  | _ => "-"
 
 end Drv.C17
 
